@@ -210,6 +210,19 @@ fn check(rep: &Report, acc: &mut Acc, d: &Desc, rank: u64, total_consistent_with
             rxs.mem.set_ctx(CtxS { label: L3A, pt: 0x0800, frag_id: d.frag_id, total_len: total, pdu_len: pos as u16, from_reuse: false, exts: vec![] }, st);
         }
     }
+    // a first fragment must also be accepted when its memory slot is held by an unfinished train of ANOTHER (aliasing) id:
+    // it claims the slot
+    if d.kind == Kind::First && (d.total_len as usize) > d.payload.len() + 2 + d.label.len() && d.payload.len() <= 64 {
+        let mut rxa = rxs.clone();
+        rxa.mem.set_ctx(CtxS { label: L6B, pt: 0x86DD, frag_id: d.frag_id.wrapping_add(2), total_len: 40, pdu_len: 1, from_reuse: false, exts: vec![] }, vec![0u8; 4100]);
+        let (oa, _) = step_decap(&rxa, &DefaultCrc {}, &TableMgr::none(), &bytes);
+        acc.transitions += 1;
+        acc.calls += 1;
+        acc.compared += 1;
+        if !matches!(oa, DecapOut::Fragmented { .. }) {
+            viol(rep, &format!("C20|generate-vs-decapsulator|{}|slot-held-by-aliasing-id", kn), rank, format!("decap refuses the generated bytes when the slot is held by an unfinished train of frag id {}: {}", d.frag_id.wrapping_add(2), oa.brief()), d);
+        }
+    }
     let (out, after) = step_decap(&rxs, &DefaultCrc {}, &TableMgr::none(), &bytes);
     acc.transitions += 1;
     acc.calls += 1;
